@@ -1,6 +1,7 @@
 (* Model of pgdump/jsonb.go:1-174 (ParseJSONB, parseJSONB, parseJSONBObject, parseJSONBArray, totalLen,
    entryOffLen, endOffset, decodeJEntry, decodeJNumeric) and of the OidJSONB branch of DecodeType
-   (types.go), as they are in the worktree AFTER the fix: commits for D20, D21, D22.
+   (types.go), as they are in the worktree AFTER the fix: commits for D20, D21, D22 and the
+   negative-length guard (kLen >= 0 / length >= 0).
 
    Go []byte = gslice; Go []uint32 (the JEntry array) = list Z with a partial index [eidx];
    interface{} results = gval.  DecodeNumeric (property C05) and safeString (utf8 scrubbing, not
@@ -91,7 +92,7 @@ Definition decodeJNumeric (data : gslice) : res gval :=
 Definition decodeJEntry (rec : gslice -> jres gval) (data : gslice) (off length je : Z) : jres gval :=
   let ty := Z.land je jeTypeMask in
   if ty =? jeString then
-    if off + length <=? len data
+    if (length >=? 0) && (off + length <=? len data)
     then s <~ lift (slice data off (off + length)) ;; JOk (VStr (vis s))
     else JOk VNil
   else if ty =? jeNumeric then
@@ -133,7 +134,7 @@ Fixpoint obj_loop (rec : gslice -> jres gval) (data : gslice) (entries : list Z)
   | O => JOk []
   | S k =>
       '(kOff, kLen) <~ lift (entryOffLen entries i 0) ;;
-      key <~ (if dataStart + kOff + kLen <=? len data
+      key <~ (if (kLen >=? 0) && (dataStart + kOff + kLen <=? len data)
               then s <~ lift (slice data (dataStart + kOff) (dataStart + kOff + kLen)) ;; JOk (vis s)
               else JOk []) ;;
       '(vOff, vLen) <~ lift (entryOffLen entries (count + i) 0) ;;
